@@ -430,6 +430,36 @@ func c16Scenarios() []c16Scenario {
 			return out, ""
 		}})
 
+	// ---- S3b: publish vs Close vs Unsubscribe: no panic, no goroutine stuck ----
+	out = append(out, c16Scenario{name: "S3b event bus: publish || close || unsubscribe", quickMax: 2, thoroughMax: 3,
+		body: func(obs *c16Obs) {
+			bus := event.NewChannelBus(1, 1)
+			s, err := bus.Subscribe("x")
+			if err != nil {
+				obs.errs["subscribe"] = err
+				return
+			}
+			got := 0
+			vsched.Go(func() {
+				for range vsched.RangeChan(s.Message()) {
+					got++
+				}
+			})
+			vsched.Spawn(func() {
+				bus.Publish(event.NewMessage("x", 1))
+				bus.Publish(event.NewMessage("x", 2))
+			})
+			vsched.Spawn(func() { bus.Unsubscribe(s) })
+			vsched.Spawn(func() { bus.Close() })
+			obs.finish = func() { obs.vals["got"] = got }
+		},
+		check: func(obs *c16Obs) (string, string) {
+			if e := obs.errs["subscribe"]; e != nil {
+				return "setup", "call-failed: subscribe: " + e.Error()
+			}
+			return fmt.Sprintf("delivered=%v", obs.vals["got"]), ""
+		}})
+
 	// ---- S4: API calls on one node ----
 	type apiOp struct {
 		name string
